@@ -197,8 +197,15 @@ def eval_object(case):
             out.append({'kind': 'query-disagrees', 'query': q, 'got': ans, 'expected': exp,
                         'after_queries': list(hist), 'cache': cache})
         c = getattr(st.obj, '_cache', None)
-        if cache and c is not None and list(c) != L[:len(c)]:
-            out.append({'kind': 'cache-not-a-prefix', 'query': q, 'cache_len': len(c)})
+        if not out and cache and c is not None and list(c) != L[:len(c)]:
+            # internal state only triggers one more *observable* question on a rebuilt object: the full listing
+            st3 = fresh()
+            for o in tuple(hist) + (q,):
+                step(st3, o)
+            seen = step(st3, ('list',))
+            if seen != ('ok', list(L)):
+                out.append({'kind': 'query-disagrees', 'query': ('list',), 'got': seen, 'expected': ('ok', list(L)),
+                            'after_queries': list(hist) + [q], 'cache': cache})
         return out
 
     def canon(st):
